@@ -97,7 +97,10 @@ def replayer(target):
 def data_input(tmp, inp):
     if inp.get('container') == 'FCSData':
         return make_fcs(tmp, inp['data'], inp.get('meta'))
-    return to_matrix(inp['data'], inp.get('ndim', 2))
+    a = to_matrix(inp['data'], inp.get('ndim', 2))
+    if inp.get('ndim', 2) == 2 and a.ndim != 2:
+        a = a.reshape((len(inp['data']), (inp.get('shape') or [0, 0])[1]))
+    return a
 
 
 def check_gate_result(data, res, full, expected_mask, fields):
